@@ -4,7 +4,7 @@ import random
 
 from .. import gen as G
 from .. import model as M
-from ..run import Result, fingerprint
+from ..run import Result, fingerprint, Inconclusive
 
 ID = 'C12'
 LEVEL = 'exploration'
@@ -19,14 +19,14 @@ RULE = ('Cases: paired FASTQ read sets over a 2k..6k-base genome (read lengths f
         'equals the model sequence of passing windows in read order (Python ntHash); no Bloom false negative; counts '
         'increase by one per Bloom hit; a k-mer is accepted exactly when the count reaches C (C=2: from the second sighting '
         'on).  An extra dictionary entry is excused only by an observed Bloom false positive or an observed 64-bit hash '
-        'collision; a missing entry never.  Builds of 2..20 read-pair samples with --threads 1..8 are compared column by column with the per-sample model.  Fault injection on the input: a read file with one malformed record (quality string of another length, missing + line) or a gzip stream cut in its middle is either refused (non-zero exit, no .skf) or loses no k-mer that reaches the count among the well-formed records.  Non-trivial: some k-mer is below and some at/above the count, or a quality '
+        'collision; a missing entry never.  Builds of 2..20 read-pair samples with --threads 1..8 are compared column by column with the per-sample model.  --min-count auto (k in 15..63, both widths; two samples whose four read files hold the same reads, so that it does not matter which two files the program fits its model on) must use the cutoff `ska cov` reports for those reads, print the same table and obey the counting rule at that count.  Fault injection on the input: a read file with one malformed record (quality string of another length, missing + line) or a gzip stream cut in its middle is either refused (non-zero exit, no .skf) or loses no k-mer that reaches the count among the well-formed records.  Non-trivial: some k-mer is below and some at/above the count, or a quality '
         'equals the threshold; distinct = distinct (parameters, reads).')
 ASSUMPTIONS = ['the exact counter in this file states the specification; quality = ASCII - 33',
                'hooked runs use --threads 1 so that the event order is the read order']
 REQUIRED = {t: ['rule:none', 'rule:middle', 'rule:strict', 'quality_equal_threshold', 'probes_at_C', 'probes_below_C',
                 'probes_above_C', 'filter_calls_monitored', 'accepts_monitored', 'mincount:1', 'mincount:2', 'mincount:3+',
                 'kmers_included', 'kmers_excluded_by_count'] for t in ('quick', 'thorough')}
-REQUIRED['quick'] = REQUIRED['quick'] + ['large_input_distinct_kmers', 'multi_sample_builds', 'multi_sample_parallel_builds', 'damaged_input_refused']
+REQUIRED['quick'] = REQUIRED['quick'] + ['large_input_distinct_kmers', 'multi_sample_builds', 'multi_sample_parallel_builds', 'damaged_input_refused', 'auto_mincount_builds', 'auto_width64', 'auto_width128']
 REQUIRED['thorough'] = REQUIRED['quick']
 RULES = {'none': 'no-filter', 'middle': 'middle', 'strict': 'strict'}
 
@@ -55,6 +55,9 @@ def plan(tier, seed, rng, scale):
         descs.append({'k': rng.choice([9, 15, 21, 31, 33]), 'rc': rng.random() < 0.7, 'rule': rng.choice(list(RULES)),
                       'minc': rng.randint(1, 4), 'minq': rng.choice([0, 2, 20]), 'seed': rng.getrandbits(32),
                       'damage': ['length-mismatch', 'missing-plus', 'cut-gzip'][i % 3], 'chk': False})
+    for i in range(int((16 if tier == 'quick' else 160) * scale)):
+        descs.append({'k': [15, 21, 31, 33, 41, 63][i % 6], 'rc': rng.random() < 0.7, 'rule': 'strict', 'minc': 0, 'minq': 20,
+                      'seed': rng.getrandbits(32), 'auto': True, 'chk': False})
     for i in range(int((40 if tier == 'quick' else 400) * scale)):
         descs.append({'k': rng.choice([9, 15, 21, 31, 33]), 'rc': rng.random() < 0.7, 'rule': rng.choice(list(RULES)),
                       'minc': rng.randint(1, 5), 'minq': rng.choice([0, 2, 20]), 'seed': rng.getrandbits(32),
@@ -301,6 +304,63 @@ def run_damaged(desc, ctx, res):
         res.nontrivial.append(fingerprint(['damaged', desc['seed']]))
 
 
+def run_auto(desc, ctx, res):
+    """--min-count auto: the count is the cutoff that `ska cov` reports for the same two files, k and strand mode; the build then
+    obeys the counting rule at that count (and prints the same coverage table)."""
+    import re
+    from . import c20
+    k, rcmode = desc['k'], desc['rc']
+    rng = random.Random(desc['seed'])
+    reads, params = c20.sim_reads(rng)
+    # the program fits the coverage model on two of the read files it is given (the first file of the first two paired
+    # samples); here all four files of two samples hold the same reads, so whichever two are taken, `ska cov X X` is the
+    # reference for the count
+    allr = reads[0] + reads[1]
+    txt = ''.join('@r%d\n%s\n+\n%s\n' % (i, s_, 'I' * len(s_)) for i, s_ in enumerate(allr))
+    for nm in ('a0', 'a1', 'b0', 'b1'):
+        ctx.write(nm + '.fastq', txt)
+    ctx.write('alist', 'A\t%s\t%s\nB\t%s\t%s\n' % tuple(ctx.path(nm + '.fastq') for nm in ('a0', 'a1', 'b0', 'b1')))
+    c = ctx.sh(ctx.ska, 'cov', ctx.path('a0.fastq'), ctx.path('b0.fastq'), '-k', k, *G.strand_flag(rcmode), timeout=600)
+    p = G.ska_build(ctx, ctx.path('auto'), ['-f', ctx.path('alist'), '--min-count', 'auto'], k, rcmode)
+    res.evals += 1
+    detail = dict(params, k=k, rc=rcmode, seed=desc['seed'], note='reads are regenerated from the seed by c20.sim_reads()')
+    if c.returncode != 0 or p.returncode != 0:
+        if (c.returncode != 0) != (p.returncode != 0):
+            res.violate('C12:auto:one-fails', 'k=%d rc=%s: ska cov exit %d, ska build --min-count auto exit %d on the same reads: %s'
+                        % (k, rcmode, c.returncode, p.returncode, (c.stderr + p.stderr).strip()[-200:]), detail)
+        else:
+            res.count('auto_fit_failed_in_both')
+        return
+    m = re.search(r'Estimated cutoff\t(\d+)', c.stderr)
+    if not m:
+        raise Inconclusive('no cutoff line from ska cov')
+    cutoff = int(m.group(1))
+    ctab = [l for l in c.stdout.split('\n') if l and l[0].isdigit()]
+    btab = [l for l in p.stdout.split('\n') if l and l[0].isdigit()]
+    if ctab != btab:
+        d = [(x, y) for x, y in zip(ctab, btab) if x != y][:2]
+        res.violate('C12:auto:table', 'k=%d rc=%s: the coverage table printed by build --min-count auto (%d rows) differs from ska cov (%d rows) on the same reads, e.g. %s'
+                    % (k, rcmode, len(btab), len(ctab), d), detail)
+        return
+    allreads = [(s_, 'I' * len(s_)) for s_ in allr]
+    pw = passing_windows(allreads, k, rcmode, 20, 'strict')
+    counts = {}
+    for w in pw:
+        counts[w] = counts.get(w, 0) + 2                       # each sample holds the reads twice
+    exp = dictionary(counts, k, rcmode, max(1, cutoff))
+    hdr, T = G.nk(ctx, ctx.path('auto.skf'))
+    lost = [a for a in exp if a not in T]
+    other = [a for a in T if T[a] != [exp.get(a)] * 2]
+    if lost or len(other) > max(1, len(counts) // 1000):
+        res.violate('C12:auto:dictionary', 'k=%d rc=%s cutoff %d: %d k-mers that reach the count are missing, %d entries differ from the counting model (%d expected)'
+                    % (k, rcmode, cutoff, len(lost), len(other), len(exp)), detail)
+        return
+    res.count('auto_mincount_builds')
+    res.see('auto_cutoffs', cutoff)
+    res.count('auto_width64' if k <= 31 else 'auto_width128')
+    res.nontrivial.append(fingerprint(['auto', desc['seed']]))
+
+
 def run_multi(desc, ctx, res):
     """Several read-pair samples in one build (parallel for >= 10 samples and > 1 thread): every column must equal the
     dictionary of its own reads; samples share most of their k-mers, so state leaking from one sample's filter into the
@@ -373,6 +433,9 @@ def run_case(desc, ctx):
         return res
     if desc.get('damage'):
         run_damaged(desc, ctx, res)
+        return res
+    if desc.get('auto'):
+        run_auto(desc, ctx, res)
         return res
     k, rcmode, rule, minc, minq = desc['k'], desc['rc'], desc['rule'], desc['minc'], desc['minq']
     rng = random.Random(desc['seed'])
